@@ -354,7 +354,7 @@ func (fr *Frame) exec(in ssa.Instruction) {
 		np := *x.P
 		np.Path += name + "."
 		np.Elem = f.Type()
-		fr.vals[in] = Val{K: VPtr, P: &np}
+		fr.vals[in] = Val{K: VPtr, P: canonPtr(&np, f.Type())}
 	case *ssa.Field:
 		x := fr.val(in.X)
 		if x.K != VStruct {
